@@ -63,6 +63,10 @@ RULE = ('corpus (26 edge cases), then a skeleton (every scale of {0.5,0.75,1,1.5
         'ROUND 6: fit_tilt THEN rescale/resample (the angle a plane gives a wavefront and the propagated image must not move), '
         'single-precision OPD maps in metres and magnitudes over 1e-13..1e9 (linearity), ndarray subclasses as inputs (masked, '
         'matrix, tagged, memmap), scales within 1e-6 of 1, 2, 1/2, 3, and planes with more than 2**20 samples (oracle only); '
+        'ROUND 7: every plane kind (Plane, Pupil, Image, explicit ptype=, Tilt carrying arrays, positional constructor '
+        'arguments, keyword call spelling) gives the same arrays and keeps its class / ptype / focal length; small-width '
+        'integer scale scalars; numpy error state and warnings filters unchanged by the call; in histories every other '
+        'result is held untouched and re-inspected at the end; one-lit-sample masks; '
         'non-trivial = array amplitude, scale != 1, no refusal')
 
 TOL = 1e-9
@@ -131,6 +135,9 @@ def build(c):
         mask = disk.astype(np.uint8)
     elif mk == 'scalar':
         mask = 1.0
+    elif mk == 'dot':
+        mask = np.zeros((n, m))
+        mask[n // 2, m // 2] = 1
     else:   # 'seg<k>': k angular sectors of the disk, separated by gaps
         k = int(mk[3:])
         th = np.arctan2(v, u + 1e-3)
@@ -301,7 +308,7 @@ def finish_case(rng, c, s):
     if dyadic_small(s):
         forms.append('np32')
     if c['op'] == 'rescale' and s.denominator == 1:
-        forms.append('int')
+        forms += ['int', 'u8', 'i8', 'u16']
     c['arg_form'] = rng.choice(forms)
     if c['ps'] is not None:
         c['ps_form'] = rng.choice(['tuple', 'tuple', 'list', 'array'] + (['scalar', 'scalar'] if c['ps'][0] == c['ps'][1] else []))
@@ -348,6 +355,14 @@ def rnd_plane(rng, n, m, special=True):
             c['opd_mul'] = rng.choice([1e-4, 1e-2, 1, 1e2, 1e6])
         elif t < 0.32:      # ndarray subclasses are legal array_like inputs: same result as the plain ndarray
             c['wrap'] = rng.choice(['masked', 'masked_some', 'matrix', 'tagged', 'memmap'])
+        elif t < 0.35:      # one lit sample
+            c['mask'] = 'dot'
+    # every plane kind goes through the same rescale: identical arrays, kind carried over
+    if rng.random() < 0.45:
+        c['kind'] = rng.choice(['pupil', 'image', 'image', 'ptype_image', 'ptype_pupil', 'ptype_tilt', 'ptype_transform',
+                                'tilt_arrays', 'positional'])
+    if rng.random() < 0.2:
+        c['call_kw'] = True
     return c
 
 
@@ -882,7 +897,20 @@ def mk_plane(c):
         amp, opd = wrap_array(amp, w), wrap_array(opd, w)
         if mask is not None and np.ndim(mask) == 2:
             mask = wrap_array(mask, w)
-    p = lentil.Plane(amplitude=amp, opd=opd, mask=mask, pixelscale=ps)
+    kind = c.get('kind', 'plane')
+    kw = dict(amplitude=amp, opd=opd, mask=mask, pixelscale=ps)
+    if kind == 'pupil':
+        p = lentil.Pupil(focal_length=12.5, **kw)
+    elif kind == 'image':
+        p = lentil.Image(**kw)
+    elif kind == 'positional':          # positional spelling of the documented constructor arguments
+        p = lentil.Plane(amp, opd, mask, ps)
+    elif kind.startswith('ptype_'):     # explicit ptype= on the base class
+        p = lentil.Plane(ptype=getattr(lentil, kind[6:]), **kw)
+    elif kind == 'tilt_arrays':         # a Tilt plane that also carries arrays
+        p = lentil.Tilt(x=1.5e-6, y=-2.5e-6, **kw)
+    else:
+        p = lentil.Plane(**kw)
     for x, y in c.get('tilt', []):
         p.tilt.append(lentil.Tilt(x=x, y=y))
     return p
@@ -900,6 +928,8 @@ def arg_of(c):
         return np.array(x)
     if form == 'int' and x == int(x):
         return int(x)
+    if form in ('u8', 'i8', 'u16') and x == int(x) and 0 < x < 100:     # small-width integer scalars must not wrap
+        return {'u8': np.uint8, 'i8': np.int8, 'u16': np.uint16}[form](int(x))
     return x
 
 
@@ -960,7 +990,22 @@ def use_result(q):
 
 
 def call_plane(p, c):
+    if c.get('call_kw'):        # keyword spelling of the documented argument
+        return p.rescale(scale=arg_of(c)) if c['op'] == 'rescale' else p.resample(pixelscale=arg_of(c))
     return p.rescale(arg_of(c)) if c['op'] == 'rescale' else p.resample(arg_of(c))
+
+
+def kind_diff(p, q):
+    """the rescaled plane is a plane of the same kind: class, ptype and the kind's own attributes are carried over"""
+    if type(q) is not type(p):
+        return f'class {type(p).__name__} became {type(q).__name__}'
+    if q.ptype != p.ptype:
+        return f'ptype {p.ptype} became {q.ptype}'
+    for a in ('focal_length', 'x', 'y'):
+        if hasattr(p, a) and getattr(p, a, None) is not None:
+            if not hasattr(q, a) or getattr(q, a) != getattr(p, a):
+                return f'{a} {getattr(p, a)!r} became {getattr(q, a, None)!r}'
+    return None
 
 
 def slice_values(p):
@@ -978,11 +1023,12 @@ def tilt_values(p):
     return [[float(t.x), float(t.y)] for t in p.tilt]
 
 
-def run_one(p, c, fresh=False):
+def run_one(p, c, fresh=False, mutate=True, hold=None):
     """one rescale/resample call on the plane p, whose current attributes the single-call case c describes"""
     before = snapshot(p)
     with warnings.catch_warnings():
         warnings.simplefilter('ignore')
+        err0, nfilt0 = np.geterr(), len(warnings.filters)
         try:
             q = call_plane(p, c)
         except Exception as e:      # noqa: BLE001 - the exception class is the observable
@@ -997,13 +1043,19 @@ def run_one(p, c, fresh=False):
                'ps': None if q.pixelscale is None else [float(q.pixelscale[0]), float(q.pixelscale[1])],
                'tilt': tilt_values(q), 'slice': slice_values(q),
                'untouched': same_snapshot(before, after), 'shares_memory': bool(shares),
-               'in_amp': Arr(before[0]), 'in_opd': Arr(before[1]), 'in_mask': Arr(before[2])}
+               'in_amp': Arr(before[0]), 'in_opd': Arr(before[1]), 'in_mask': Arr(before[2]),
+               'kind_diff': kind_diff(p, q),
+               'env_diff': None if (np.geterr() == err0 and len(warnings.filters) == nfilt0) else
+               f'numpy error state / warnings filters changed by the call: {err0} -> {np.geterr()}'}
         if fresh:       # the same call on a fresh plane with equal attributes: no history
             res['fresh_diff'] = fresh_diff(c, res)
-        if c['op'] == 'resample':
+        if c['op'] == 'resample' and c.get('kind', 'plane') in ('plane', 'pupil', 'positional'):
             res['interop'] = interop(c, q)
         # second step: use the returned plane, then look at the original again
-        use_result(q)
+        if mutate:
+            use_result(q)
+        elif hold is not None:
+            hold.append((q, res))
         leak = snapshot_diff(before, snapshot(p))
     res['untouched_after_use'] = leak is None
     res['leak'] = leak or ''
@@ -1052,10 +1104,13 @@ def run_history(c):
     base = {k: x for k, x in c.items() if k != 'steps'}
     p = mk_plane(base)
     out = []
+    held = []
     for k, st, v in walk(c):
         do = st['do']
         if do in CALLS:
-            out.append(run_one(p, v, fresh=True))
+            # every other result is kept untouched and re-inspected at the end: a result must not be a view of memory that
+            # a later call overwrites; the others are edited in place, which later calls must not notice
+            out.append(run_one(p, v, fresh=True, mutate=len(out) % 2 == 1, hold=held))
             continue
         amp, opd, mask = build(v)
         if do == 'set_opd':
@@ -1072,6 +1127,12 @@ def run_history(c):
             p.tilt.append(lentil.Tilt(x=st['x'], y=st['y']))
         elif do == 'copy':
             p = p.copy()
+    for q, res in held:
+        for name, a in (('amp', q.amplitude), ('opd', q.opd), ('mask', q.mask)):
+            if not np.array_equal(np.asarray(a), res[name].a):
+                res['held_changed'] = f'{name} of a result held by the caller changed during later calls'
+        if tilt_values(q) != res['tilt']:
+            res['held_changed'] = 'tilt of a result held by the caller changed during later calls'
     return {'steps': out}
 
 
@@ -1505,6 +1566,12 @@ def oracle(c, impl):
                 'array writes): the result shares mutable state (tilt list / 0-d arrays) with the original: ' + impl['leak'])
     if impl['shares_memory']:
         return 'the returned plane shares memory with the original'
+    if impl.get('kind_diff'):
+        return 'the rescaled plane is not a plane of the same kind: ' + impl['kind_diff']
+    if impl.get('env_diff'):
+        return impl['env_diff']
+    if impl.get('held_changed'):
+        return impl['held_changed']
     lentil = C.import_lentil()
     want = [[float(t.x), float(t.y)] for t in (lentil.Tilt(x=x, y=y) for x, y in c.get('tilt', []))]
     if impl['tilt'] != want:
